@@ -221,6 +221,10 @@ func (s *SubscriptionManager[C, T]) Subscribe(clientID C, topic T) bool {
 
 			// check if the client has reached the max number of subscriptions
 			if s.maxTopicSubscriptionsPerClient != 0 && subscribedTopics.Size() >= s.maxTopicSubscriptionsPerClient {
+				// the new subscription was never added to the global map,
+				// so it must not be subtracted from it by the cleanup.
+				subscribedTopics.Delete(topic)
+
 				// cleanup the client
 				_, removedTopics, unsubscribedTopics = s.cleanupClientWithoutLocking(clientID)
 				clientDropped = true
